@@ -54,12 +54,14 @@ def _layouts(r, f, P, name, sig, case, fam, th):
         r.violation(f'{sig}:{name}:argument-reuse', f'{fam} theta={th}: {name} '
                     f'{"modified its argument" if not np.array_equal(same, P) else "answers differently the second time"} '
                     f'when the same array object is evaluated twice', case=case)
+    same[:] = P[::-1]                        # the same object refilled in place: the answer is a function of the values
+    refilled = np.asarray(f(same), float)[::-1]
     rev = np.asarray(f(P[::-1].copy()), float)[::-1]
     k = -(-1000 // len(P))
     tiled = np.asarray(f(np.tile(P, (k, 1))), float).reshape(k, len(P))
-    r.tr(len(P) + 3)
-    r.ev(len(P) * (3 + k))
-    for lname, arr in (('full', full), ('reversed', rev), ('tile-last', tiled[-1])):
+    r.tr(len(P) + 4)
+    r.ev(len(P) * (4 + k))
+    for lname, arr in (('full', full), ('reversed', rev), ('tile-last', tiled[-1]), ('same-object-refilled-in-place', refilled)):
         same = (np.abs(arr - alone) <= 1e-13 * np.maximum(1, np.abs(alone))) | \
                (~np.isfinite(arr) & ~np.isfinite(alone))
         if not same.all():
